@@ -92,6 +92,15 @@ claim("C18",
       "external packages assumed not to write module state; nothing about actual schedules or -race runs is claimed.",
       technique="contract-style frame (modifies) obligations discharged by a whole-module effect/reachability checker over go/ssa")
 
-for p in ["C01","C02","C03","C04","C08","C09","C15","C17"]:
+claim("C17",
+      "Luminance views: RGBLuminanceSource and PlanarYUVLuminanceSource GetRow are proved to return exactly row y of the naive 2-D pixel model of the view (error iff y is outside the view, "
+      "the source data untouched, the result either the caller's buffer or a fresh one); Crop of RGB, PlanarYUV and GoImage sources is proved to fail exactly for a negative origin/size or a rectangle "
+      "leaving the underlying data, and otherwise to return a well-formed view whose pixel (x,y) is the original pixel (x+left, y+top); GoImageLuminanceSource.RotateCounterClockwise is proved to "
+      "return a well-formed Height x Width view with new(x',y') == old(Width-1-y', x'). HybridBinarizer.GetBlackMatrix is proved to use ceil(width/8) x ceil(height/8) blocks on the local path. "
+      "Not decided yet: GetMatrix, the inverted view, NewLuminanceSourceFromImage / NewRGBLuminanceSource colour conversion, and bilevel exactness of the two binarisers (estimateBlackPoint, "
+      "calculateBlackPoints, calculateThresholdForBlock, thresholdBlock, GetBlackRow).",
+      "products of symbolic integers uninterpreted except for the proved index lemmas (viewRow, rotIdx, rowIdxInj); errors constructors from xerrors assumed non-panicking.")
+
+for p in ["C01","C02","C03","C04","C08","C09","C15"]:
     na(p, NOTYET)
 na("C11", "The library has no Aztec writer: 'conforming symbol' would have to be a hand-written restatement of ISO/IEC 24778 (a model, not the code), and the image-to-bits path is a float-geometry detector; no contract on one call of the real code expresses the property. The Aztec decoder's totality is covered under C06.")
